@@ -564,7 +564,10 @@ fill_yly_yd(
 		/* yd */
 		struct md_s md;
 
-		if (wd_mask >> 1U &&
+		if (UNLIKELY(yd > 365 + !(y % 4U) || -yd > 365 + !(y % 4U))) {
+			/* no such day in year Y */
+			continue;
+		} else if (wd_mask >> 1U &&
 		    !((wd_mask >> yd_get_wday(y, yd)) & 0b1U)) {
 			/* weekday is masked out */
 			continue;
